@@ -12,6 +12,7 @@ import tempfile
 from typing import Any, Dict, Iterable, List, Optional
 
 from harness.core import OUTSIDE, Case, Check, Finding, call, canon, err_name, short
+from harness.guard import guarded
 
 # The column names of the STATEMENT (document id, region id, line id, text, the three boxes): the oracle's own
 # vocabulary.  They are what the oracle expects to find in the records, whatever the code says; the lists the CODE
@@ -279,6 +280,58 @@ def _flat_first_line(docs, outer) -> bool:
 
 def _rec_list(it) -> List[dict]:
     return [dict(r) for r in it]
+
+
+def _copy_item(x):
+    """a record (dict) or a group of records (list of dicts), copied as it is NOW"""
+    return [dict(r) for r in x] if isinstance(x, list) else dict(x)
+
+
+def _walks(mk, hist: Dict[str, List[str]], name: str) -> Dict[str, Any]:
+    """(A) the reader as a USED object.  `mk()` builds the reader; the result is the first walk (each record copied
+    at the moment it is yielded — the streaming view, as before).  On top of that:
+      * the record OBJECTS of the first walk are kept (what `list(reader)` does) and looked at again after the walk
+        and after a second walk: a record must not change once it has been handed out;
+      * the SAME reader object is walked a second time, and a third time after a walk that was abandoned after
+        its first item: every walk must yield the records of the first.
+    Remarks go to hist[name] (empty = nothing to report); they are judged by the oracle and the comparison."""
+    box: Dict[str, Any] = {}
+
+    def first():
+        rd = mk()
+        box['rd'] = rd
+        kept, seen = [], []
+        for r in rd:
+            kept.append(r)
+            seen.append(_copy_item(r))
+        box['kept'] = kept
+        return seen
+    res = call(first)
+    if 'ok' not in res or 'kept' not in box:
+        return res
+    seen, kept, rd = res['ok'], box['kept'], box['rd']
+    remarks = []
+    if [_copy_item(r) for r in kept] != seen:
+        remarks.append(f'records kept from the walk (list(reader)) differ from the records as they were yielded: '
+                       f'{short([_copy_item(r) for r in kept], 300)} vs {short(seen, 300)}')
+    second = call(lambda: [_copy_item(r) for r in rd])
+    if second != {'ok': seen}:
+        remarks.append(f'second walk over the same reader yields {short(second, 400)}, the first walk yielded '
+                       f'{short(seen, 400)}')
+    if [_copy_item(r) for r in kept] != seen and not remarks:
+        remarks.append('records of the first walk changed during the second walk')
+    if len(seen) >= 2 and len(seen) % 2 == 0:
+        def third():
+            it = iter(rd)
+            next(it)                       # a walk that is abandoned after its first item
+            del it
+            return [_copy_item(r) for r in rd]
+        t = call(third)
+        if t != {'ok': seen}:
+            remarks.append(f'walk after an abandoned walk yields {short(t, 400)}, the first walk yielded {short(seen, 400)}')
+    if remarks:
+        hist[name] = remarks
+    return res
 
 
 def _dump_box(c):
@@ -1056,6 +1109,7 @@ def _paths(r, prefix=()):
         yield from _paths(s, prefix + (i,))
 
 
+@guarded
 class C14(Check):
     pid = 'C14'
     props_module = 'PagexmlModel.Props.C14'
@@ -1103,7 +1157,10 @@ class C14(Check):
         'produces; the older format read with a header expected or not three column names); inside it records, files, ids, '
         'texts, document and line boxes, counts and error-freeness are compared exactly — only the box of a REBUILT '
         'region, which the statement does not list, is not compared. Documents with repeated ids are inside (compared '
-        'exactly), not judged by the oracle.')
+        'exactly), not judged by the oracle. Histories (wave 4): every reader object is walked twice (and once more after '
+        'an abandoned walk) and the record objects of the first walk are kept, as list(reader) does, and re-read after '
+        'the later walks — every walk must yield the records of the first and no record may change after it was handed '
+        'out; the model being a pure function of the source, its one answer is the answer to every walk.')
     assumptions = [
         'gzip.open(..., "wt"/"rt") is the identity on text; reading translates \\r\\n and \\r to \\n (universal newlines)',
         'str.strip()/isspace: whitespace set sent per request from the running CPython (ws); column names contain none',
@@ -1189,11 +1246,14 @@ class C14(Check):
             out['orig_stats'] = call(lambda: [[d.num_lines, d.num_words] for d in docs])
             srt = call(lambda: [docs.index(d) for d in sorted(docs)]) if docs else {'ok': []}
             out['sorted_perm'] = srt
-            out['docs_route'] = call(lambda: _rec_list(th.LineReader(
-                pagexml_docs=_one_or_list(docs, as_str), use_outer_textregions=outer, add_bounding_box=bbox)))
+            hist: Dict[str, List[str]] = {}
+            out['docs_route'] = _walks(lambda: th.LineReader(
+                pagexml_docs=_one_or_list(docs, as_str), use_outer_textregions=outer, add_bounding_box=bbox),
+                hist, 'docs_route')
             if groupby:
-                out['docs_route_grouped'] = call(lambda: [_rec_list(g) for g in th.LineReader(
-                    pagexml_docs=docs, use_outer_textregions=outer, add_bounding_box=bbox, groupby=groupby)])
+                out['docs_route_grouped'] = _walks(lambda: th.LineReader(
+                    pagexml_docs=docs, use_outer_textregions=outer, add_bounding_box=bbox, groupby=groupby),
+                    hist, 'docs_route_grouped')
             # --- write the line files with the real writer
             chunks, i = [], 0
             for n in inp.get('split') or [len(docs)]:
@@ -1225,11 +1285,11 @@ class C14(Check):
                     kw['has_headers'] = inp.get('explicit_has_headers_flag', True)
                 else:
                     kw['has_headers'] = False
-                out['lf_route'] = call(lambda: _rec_list(th.LineReader(
-                    pagexml_line_files=_one_or_list(paths, as_str), **kw)))
+                out['lf_route'] = _walks(lambda: th.LineReader(
+                    pagexml_line_files=_one_or_list(paths, as_str), **kw), hist, 'lf_route')
                 if groupby:
-                    out['lf_route_grouped'] = call(lambda: [_rec_list(g) for g in th.LineReader(
-                        pagexml_line_files=paths, groupby=groupby, **kw)])
+                    out['lf_route_grouped'] = _walks(lambda: th.LineReader(
+                        pagexml_line_files=paths, groupby=groupby, **kw), hist, 'lf_route_grouped')
                 if inp.get('rebuild'):
                     rkw = dict(add_bounding_box=inp.get('rebuild_bbox', True))
                     if mode == 'has_headers':
@@ -1247,11 +1307,19 @@ class C14(Check):
                     with open(p, 'w', encoding='utf-8') as fh:
                         fh.write(d.to_pagexml(tostring=True))
                     xpaths.append(p)
-                out['files_route'] = call(lambda: _rec_list(th.LineReader(
-                    pagexml_files=_one_or_list(xpaths, as_str), use_outer_textregions=outer, add_bounding_box=bbox)))
+                out['files_route'] = _walks(lambda: th.LineReader(
+                    pagexml_files=_one_or_list(xpaths, as_str), use_outer_textregions=outer, add_bounding_box=bbox),
+                    hist, 'files_route')
                 if groupby:
-                    out['files_route_grouped'] = call(lambda: [_rec_list(g) for g in th.LineReader(
-                        pagexml_files=xpaths, use_outer_textregions=outer, add_bounding_box=bbox, groupby=groupby)])
+                    out['files_route_grouped'] = _walks(lambda: th.LineReader(
+                        pagexml_files=xpaths, use_outer_textregions=outer, add_bounding_box=bbox, groupby=groupby),
+                        hist, 'files_route_grouped')
+            # the documents themselves are used objects by now (sorted, walked several times, exported): their
+            # counts must be what they were
+            if docs and call(lambda: [[d.num_lines, d.num_words] for d in docs]) != out['orig_stats']:
+                hist['documents'] = ['line / word counts of the in-memory documents changed while they were read']
+            if hist:
+                out['history'] = hist
         finally:
             shutil.rmtree(tmp, ignore_errors=True)
         return canon(out)
@@ -1269,10 +1337,13 @@ class C14(Check):
             kw = dict(add_bounding_box=inp['bbox'], has_headers=inp['has_headers'])
             if inp.get('headers') is not None:
                 kw['line_file_headers'] = list(inp['headers'])
-            out['read'] = call(lambda: _rec_list(th.LineReader(pagexml_line_files=paths, **kw)))
+            hist: Dict[str, List[str]] = {}
+            out['read'] = _walks(lambda: th.LineReader(pagexml_line_files=paths, **kw), hist, 'read')
             if inp.get('groupby'):
-                out['read_grouped'] = call(lambda: [_rec_list(g) for g in th.LineReader(
-                    pagexml_line_files=paths, groupby=inp['groupby'], **kw)])
+                out['read_grouped'] = _walks(lambda: th.LineReader(
+                    pagexml_line_files=paths, groupby=inp['groupby'], **kw), hist, 'read_grouped')
+            if hist:
+                out['history'] = hist
             if inp.get('rebuild'):
                 out['rebuild'] = call(lambda: [_dump_rebuilt(d) for d in th.read_pagexml_docs_from_line_file(
                     paths, has_headers=inp['has_headers'], headers=inp.get('headers'),
@@ -1321,8 +1392,17 @@ class C14(Check):
             out['read'] = call(lambda: [dict(r) if isinstance(r, dict) else {'row': list(r)}
                                         for r in ph.read_line_format_file(_one_or_list(paths, inp.get('as_str')), **kw)])
             if not kw['has_header']:
-                out['iterable'] = call(lambda: [dict(r) if isinstance(r, dict) else {'row': list(r)}
-                                                for r in ph.LineIterable(paths, headers=inp.get('headers'))])
+                hist: Dict[str, List[str]] = {}
+                norm = lambda rs: [dict(r) if isinstance(r, dict) else {'row': list(r)} for r in rs]   # noqa
+                it = call(lambda: ph.LineIterable(paths, headers=inp.get('headers')))
+                out['iterable'] = call(lambda: norm(it['ok'])) if 'ok' in it else it
+                if 'ok' in it and 'ok' in out['iterable']:
+                    second = call(lambda: norm(it['ok']))       # the same iterable object once more
+                    if second != out['iterable']:
+                        hist['iterable'] = [f'second walk over the same LineIterable yields {short(second, 300)}, '
+                                            f'the first {short(out["iterable"], 300)}']
+                if hist:
+                    out['history'] = hist
         finally:
             shutil.rmtree(tmp, ignore_errors=True)
         return canon(out)
@@ -1421,6 +1501,10 @@ class C14(Check):
         named = {name: a for (name, _), a in zip(late, model_out[n_base:])}
         model_out = model_out[:n_base]
         k, inp = case.kind, case.input
+        if isinstance(out, dict) and out.get('history'):
+            # the model is a pure function of the source: its answer is the answer to every walk
+            nm, rem = sorted(out['history'].items())[0]
+            return f'{nm}: {rem[0]}'
         if k == 'rt':
             return self._compare_rt(case, out, model_out, named)
         if k == 'raw':
@@ -1535,6 +1619,10 @@ class C14(Check):
         # by what they are): the statement says nothing about them
         if outside_quantifier(k, inp) is not None:
             return fs
+        # (A) "the line reader yields identical records": a reader object is an iterable — every walk over it, and
+        # every record it handed out, is covered (see _walks)
+        for nm, rem in sorted((out.get('history') or {}).items() if isinstance(out, dict) else []):
+            bad(f'reader-history:{nm}', f'{nm}: {rem[0]}')
         # grouping is judged on every stream the reader produced
         if k in ('rt', 'raw'):
             g = inp.get('groupby')
